@@ -342,7 +342,14 @@ func ConvertProjectedPointListToPointList(
 		}
 
 		// 変換後の座標を持つ投影座標用インスタンスを戻り値に格納
-		newPoint, _ := object.NewPoint(x, y, p.Alt)
+		newPoint, err := object.NewPoint(x, y, p.Alt)
+
+		if err != nil {
+			// 変換後の経度緯度が地理座標の範囲外の場合、不完全な座標は返却せずエラーインスタンスを返却
+			return pointList,
+				errors.NewSpatialIdError(errors.ValueConvertErrorCode, "")
+		}
+
 		pointList = append(pointList, newPoint)
 	}
 
